@@ -19,6 +19,8 @@ PATCHES = {
    "func runqget(pp *p) (gp *g, inheritTime bool) {\n\tif simSchedState != 0 {\n\t\tsimSchedPick(pp)\n\t}\n"),
  ],
  "src/runtime/runtime2.go": [
+  ("func (w waitReason) isIdleInSynctest() bool {\n\treturn isIdleInSynctest[w]\n}\n",
+   "func (w waitReason) isIdleInSynctest() bool {\n\t// verif: in simulation every lock holder lives in the bubble, so a goroutine\n\t// parked on a mutex is durably blocked; otherwise virtual time could not\n\t// advance while a lock holder waits for a timer (yamux holds a lock across a\n\t// timed send).\n\tif simSchedState != 0 && (w == waitReasonSyncMutexLock || w == waitReasonSyncRWMutexRLock || w == waitReasonSyncRWMutexLock) {\n\t\treturn true\n\t}\n\treturn isIdleInSynctest[w]\n}\n"),
   ("\tbubble  *synctestBubble\n", "\tbubble  *synctestBubble\n\tsimTag  uint64 // verif: simulated host of this goroutine, inherited by children\n"),
  ],
  "src/runtime/select.go": [
